@@ -24,6 +24,9 @@ import concurrent.futures
 import json
 import os
 import re
+import shutil
+import subprocess
+import tempfile
 
 import vlib
 
@@ -51,6 +54,33 @@ def _trace_fail_event(res, trace_path):
         lines = f.read().splitlines()
     ev = json.loads(lines[l - 1]) if 0 < l <= len(lines) else None
     return l, ev
+
+
+APALACHE = "/opt/veriftools/apalache/bin/apalache-mc"
+
+
+def _apalache_quorum(ctx):
+    """Optional: the quorum facts for ALL N >= 1 by Apalache (symbolic initial state). A counterexample
+    is a defect of the specification (Broken); an unavailable tool is only noted."""
+    d = tempfile.mkdtemp(prefix="apalache.", dir=ctx.scratch)
+    shutil.copy(os.path.join(vlib.VERIF, "spec", "consensus", "MCQuorumAll.tla"), d)
+    env = dict(os.environ, JAVA_IO_TMPDIR=d, TMPDIR=d, JVM_ARGS="-Xmx2g")
+    try:
+        p = subprocess.run([APALACHE, "check", "--init=InitAll", "--inv=AllN", "--length=0",
+                            "--out-dir=" + os.path.join(d, "out"), "MCQuorumAll.tla"],
+                           cwd=d, env=env, capture_output=True, text=True, timeout=300)
+    except (OSError, subprocess.TimeoutExpired) as e:
+        ctx.coverage["quorum_all_N_apalache"] = "not run (%s)" % type(e).__name__
+        return
+    out = p.stdout + p.stderr
+    if "The outcome is: NoError" in out:
+        ctx.coverage["quorum_all_N_apalache"] = "2q-N >= f+1, q <= N-f, N-f >= f+1 hold for ALL N >= 1 (SMT)"
+        vlib.log("Apalache: quorum arithmetic holds for all N >= 1")
+    elif "invariant" in out and "violated" in out:
+        raise vlib.Broken("Apalache found a total voting power violating the quorum arithmetic:\n" + out[-1500:])
+    else:
+        ctx.coverage["quorum_all_N_apalache"] = "not run (tool failure)"
+    shutil.rmtree(d, ignore_errors=True)
 
 
 def _selftest(ctx, path):
@@ -95,8 +125,6 @@ def run(ctx):
                               coverage=(thorough and cfg == "TendermintAbs_f1c1.cfg"))
             if "coverage" in r:
                 vlib.require_actions_covered(r)
-        ctx.tlc_check("consensus", "Quorum.tla", "Quorum_thorough.cfg" if thorough else "Quorum_quick.cfg",
-                      timeout=1200)
         r = ctx.tlc_check("consensus", "MCTendermint.tla",
                           "Tendermint_proc_thorough.cfg" if thorough else "Tendermint_proc_quick.cfg",
                           timeout=2400, coverage=thorough)
@@ -166,6 +194,9 @@ def run(ctx):
 
     # ------------------------------------------------------------------ thresholds
     if not only or "quorum" in only:
+        ctx.tlc_check("consensus", "Quorum.tla", "Quorum_thorough.cfg" if thorough else "Quorum_quick.cfg",
+                      timeout=1200)
+        _apalache_quorum(ctx)
         res = ctx.run_engine(binary, "TestTmQuorum", {"maxN": 1000000 if thorough else 100000}, timeout=900)
         ctx.absorb(res, ENGINE, "TestTmQuorum")
         ctx.coverage["quorum_probed_up_to_N"] = res.get("stats", {}).get("quorum_max_n", 0)
